@@ -1,0 +1,157 @@
+//go:build verif
+
+// Contracts for the verification machinery in /verif (comment-only; no declarations).
+//
+// C08: a peer ID is a function of the public key (identity multihash of the marshalled key when it has at most
+// 42 bytes, sha2-256 otherwise), MatchesPublicKey is exactly "IDFromPublicKey(pk) succeeds and yields this ID",
+// the binary form is the ID's own bytes, and a public key is extracted only from identity-multihash IDs.
+// Multihash/base58/CID/protobuf libraries are external: guard contracts over their calls.
+
+package peer
+
+// IDFromPublicKey. 'pure' = calls are the uninterpreted application peer.IDFromPublicKey(pk): determinism in pk is
+// an ASSUMPTION (marshalling and hashing are deterministic, keys are immutable, AdvancedEnableInlining is not
+// flipped at run time); the body is verified for the derivation mechanism below.
+//@ func IDFromPublicKey
+//@ prop C08
+//@ pure
+//@ callsite Sum#0 requires arg0 == ret(MarshalPublicKey, 0, 0) && ret(MarshalPublicKey, 0, 1) == nil && arg(MarshalPublicKey, 0, 0) == pk && arg2 == -1
+//@ callsite Sum#0 requires (AdvancedEnableInlining && len(arg0) <= 42) ==> arg1 == mh.IDENTITY
+//@ callsite Sum#0 requires !(AdvancedEnableInlining && len(arg0) <= 42) ==> arg1 == mh.SHA2_256
+//@ ensures result1 == nil ==> called(MarshalPublicKey, 0) && ret(MarshalPublicKey, 0, 1) == nil && called(Sum, 0) && ret(Sum, 0, 1) == nil &&
+//@         result0 == ID(string(ret(Sum, 0, 0)))
+//@ ensures called(MarshalPublicKey, 0) && ret(MarshalPublicKey, 0, 1) != nil ==> result1 != nil
+//@ ensures called(Sum, 0) && ret(Sum, 0, 1) != nil ==> result1 != nil
+//@ ensures result1 != nil ==> result0 == ""
+//@ modifies nothing
+
+//@ func IDFromPrivateKey
+//@ prop C08
+//@ ensures called(GetPublic, 0) && arg(GetPublic, 0, 0) == sk && result0 == nth(peer.IDFromPublicKey(ret(GetPublic, 0, 0)), 0) &&
+//@         result1 == nth(peer.IDFromPublicKey(ret(GetPublic, 0, 0)), 1)
+//@ modifies nothing
+
+// MatchesPublicKey: true exactly when the derivation succeeds and gives this very ID.
+//@ func (id ID) MatchesPublicKey
+//@ prop C08
+//@ ensures result <==> (nth(peer.IDFromPublicKey(pk), 1) == nil && nth(peer.IDFromPublicKey(pk), 0) == id)
+//@ modifies nothing
+
+//@ func (id ID) MatchesPrivateKey
+//@ prop C08
+//@ ensures called(GetPublic, 0) && arg(GetPublic, 0, 0) == sk
+//@ ensures result <==> (nth(peer.IDFromPublicKey(ret(GetPublic, 0, 0)), 1) == nil && nth(peer.IDFromPublicKey(ret(GetPublic, 0, 0)), 0) == id)
+//@ modifies nothing
+
+// ExtractPublicKey: a key is returned only for an ID that decodes as a multihash with the identity code, and it is
+// the result of unmarshalling exactly that multihash's digest.
+//@ func (id ID) ExtractPublicKey
+//@ prop C08
+//@ ensures result1 == nil ==> called(Decode, 0) && ret(Decode, 0, 1) == nil && strsrc(arg(Decode, 0, 0)) == id && ret(Decode, 0, 0).Code == mh.IDENTITY
+//@ ensures result1 == nil ==> called(UnmarshalPublicKey, 0) && ret(UnmarshalPublicKey, 0, 1) == nil && result0 == ret(UnmarshalPublicKey, 0, 0) &&
+//@         arg(UnmarshalPublicKey, 0, 0) == ret(Decode, 0, 0).Digest
+//@ ensures result1 != nil ==> result0 == nil
+//@ ensures called(Decode, 0) && ret(Decode, 0, 1) == nil && ret(Decode, 0, 0).Code != mh.IDENTITY ==> result1 == ErrNoPublicKey
+
+// binary form: the ID's own bytes, unchanged; parsing accepts only what mh.Cast accepts and keeps the bytes.
+//@ func (id ID) Marshal
+//@ prop C08
+//@ ensures result1 == nil && strsrc(result0) == id && len(result0) == len(id)
+//@ modifies nothing
+
+//@ func (id ID) MarshalBinary
+//@ prop C08
+//@ ensures result1 == nil && strsrc(result0) == id && len(result0) == len(id)
+//@ modifies nothing
+
+//@ func IDFromBytes
+//@ prop C08
+//@ ensures called(Cast, 0) && arg(Cast, 0, 0) == b
+//@ ensures result1 == nil ==> ret(Cast, 0, 1) == nil
+//@ ensures ret(Cast, 0, 1) != nil ==> result1 != nil
+//@ ensures result1 == nil ==> result0 == ID(string(b))
+//@ ensures result1 != nil ==> result0 == ""
+//@ modifies nothing
+
+//@ func (id *ID) Unmarshal
+//@ prop C08
+//@ ensures err == nil ==> *id == ID(string(data))
+//@ ensures err != nil ==> *id == ""
+//@ modifies *id
+
+//@ func (id *ID) UnmarshalBinary
+//@ prop C08
+//@ ensures result == nil ==> *id == ID(string(data))
+//@ modifies *id
+
+// text forms: Decode accepts a base58 multihash ("Qm..."/"1...") or a CID whose codec is libp2p-key and returns
+// exactly the multihash bytes; FromCid refuses every other codec.
+//@ func FromCid
+//@ prop C08
+//@ ensures result1 == nil ==> called(Type, 0) && arg(Type, 0, 0) == c && ret(Type, 0, 0) == mc.Libp2pKey && called(Hash, 0) && arg(Hash, 0, 0) == c &&
+//@         result0 == ID(string(ret(Hash, 0, 0)))
+//@ ensures result1 != nil ==> result0 == ""
+//@ modifies nothing
+
+//@ func Decode
+//@ prop C08
+//@ ensures result1 == nil && called(FromB58String, 0) ==> ret(FromB58String, 0, 1) == nil && arg(FromB58String, 0, 0) == s &&
+//@         result0 == ID(string(ret(FromB58String, 0, 0)))
+//@ ensures result1 == nil && !called(FromB58String, 0) ==> called(Decode, 0) && ret(Decode, 0, 1) == nil && arg(Decode, 0, 0) == s &&
+//@         called(FromCid, 0) && arg(FromCid, 0, 0) == ret(Decode, 0, 0) && ret(FromCid, 0, 1) == nil && result0 == ret(FromCid, 0, 0)
+//@ ensures result1 != nil ==> result0 == ""
+//@ modifies nothing
+
+//@ func (id *ID) UnmarshalText
+//@ prop C08
+//@ ensures result == nil ==> called(Decode, 0) && ret(Decode, 0, 1) == nil && *id == ret(Decode, 0, 0)
+//@ ensures result != nil ==> *id == old(*id)
+//@ modifies *id
+
+// ---------------------------------------------------------------------------
+// signed peer records: constant domain / payload type, field mapping to and from the protobuf message
+
+//@ func (r *PeerRecord) Domain
+//@ prop C08
+//@ ensures result == PeerRecordEnvelopeDomain && result == "libp2p-peer-record"
+//@ modifies nothing
+
+//@ func (r *PeerRecord) Codec
+//@ prop C08
+//@ ensures result == PeerRecordEnvelopePayloadType
+//@ modifies nothing
+
+//@ func (r *PeerRecord) ToProtobuf
+//@ prop C08
+//@ ensures result1 == nil ==> result0 != nil && fresh(result0) && result0.Seq == r.Seq && strsrc(result0.PeerId) == r.PeerID && len(result0.PeerId) == len(r.PeerID)
+//@ ensures result1 == nil ==> called(addrsToProtobuf, 0) && arg(addrsToProtobuf, 0, 0) == r.Addrs && result0.Addresses == ret(addrsToProtobuf, 0, 0)
+//@ ensures result1 != nil ==> result0 == nil
+//@ modifies nothing
+
+// (the local `id` has its address taken: the engine havocs it at calls, so the equality record.PeerID ==
+// ID(string(msg.PeerId)) is not derivable here; what is proved is that the ID goes through UnmarshalBinary
+// - i.e. mh.Cast validation - of exactly msg.PeerId and that a rejected ID rejects the record)
+//@ func PeerRecordFromProtobuf
+//@ prop C08
+//@ ensures called(UnmarshalBinary, 0) && arg(UnmarshalBinary, 0, 1) == msg.PeerId
+//@ ensures result1 == nil ==> ret(UnmarshalBinary, 0, 0) == nil && result0 != nil && result0.Seq == msg.Seq
+//@ ensures result1 == nil ==> called(addrsFromProtobuf, 0) && arg(addrsFromProtobuf, 0, 0) == msg.Addresses && result0.Addrs == ret(addrsFromProtobuf, 0, 0)
+//@ ensures ret(UnmarshalBinary, 0, 0) != nil ==> result1 != nil && result0 == nil
+//@ modifies nothing
+
+//@ func (r *PeerRecord) UnmarshalRecord
+//@ prop C08
+//@ inline HandlePanic
+//@ ensures err == nil ==> called(Unmarshal, 0) && arg(Unmarshal, 0, 0) == bytes && ret(Unmarshal, 0, 0) == nil &&
+//@         called(PeerRecordFromProtobuf, 0) && ret(PeerRecordFromProtobuf, 0, 1) == nil
+//@ ensures err == nil ==> r.PeerID == ret(PeerRecordFromProtobuf, 0, 0).PeerID && r.Seq == ret(PeerRecordFromProtobuf, 0, 0).Seq &&
+//@         r.Addrs == ret(PeerRecordFromProtobuf, 0, 0).Addrs
+//@ ensures err != nil ==> r.PeerID == old(r.PeerID) && r.Seq == old(r.Seq) && r.Addrs == old(r.Addrs)
+//@ modifies r.PeerID, r.Seq, r.Addrs
+
+//@ func (r *PeerRecord) MarshalRecord
+//@ prop C08
+//@ inline HandlePanic
+//@ ensures err == nil ==> called(ToProtobuf, 0) && arg(ToProtobuf, 0, 0) == r && ret(ToProtobuf, 0, 1) == nil &&
+//@         called(Marshal, 0) && ret(Marshal, 0, 1) == nil && res == ret(Marshal, 0, 0)
+//@ modifies nothing
